@@ -590,29 +590,32 @@ fn big_state_ok(variant: u64, seed: u64, h: &RepoHandle, live: &[(SnapshotFile, 
 }
 
 /// fault positions around every index file written before the last pack write (= the indexer's auto-saves): the pack
-/// write before it, the index write itself and the operation after it (quick); thorough: two more on each side, the first
-/// and the last operation and four random ones
-fn big_ks(log: &[LogOp], thorough: bool, seed: u64) -> Vec<usize> {
+/// write before it, the index write itself and the operation after it (quick); thorough: two on each side, the first and
+/// the last operation and two random ones.  Returned with a flag: also run with `crash_at` (quick: never; thorough: the
+/// three central positions).
+fn big_ks(log: &[LogOp], thorough: bool, seed: u64) -> Vec<(usize, bool)> {
     let n = log.len();
     let last_pack = log.iter().rposition(|o| o.tpe == FileType::Pack && o.write).unwrap_or(0);
-    let mut v: BTreeSet<usize> = BTreeSet::new();
-    let d = if thorough { 3 } else { 1 };
+    let mut v: BTreeMap<usize, bool> = BTreeMap::new();
+    let d = if thorough { 2 } else { 1 };
     for (i, o) in log.iter().enumerate() {
         if o.tpe == FileType::Index && o.write && i < last_pack {
             for k in i.saturating_sub(d)..=i + d {
-                _ = v.insert(k);
+                let central = thorough && k + 1 >= i && k <= i + 1;
+                let e = v.entry(k).or_insert(false);
+                *e = *e || central;
             }
         }
     }
     if thorough && !v.is_empty() {
-        _ = v.insert(0);
-        _ = v.insert(n - 1);
+        _ = v.entry(0).or_insert(false);
+        _ = v.entry(n - 1).or_insert(false);
         let mut r = Rng::new(seed ^ 0xb16);
-        for _ in 0..4 {
-            _ = v.insert(r.below(n as u64) as usize);
+        for _ in 0..2 {
+            _ = v.entry(r.below(n as u64) as usize).or_insert(false);
         }
     }
-    v.into_iter().filter(|k| *k < n).collect()
+    v.into_iter().filter(|(k, _)| *k < n).collect()
 }
 
 fn exec_big(variant: u64, seed: u64, thorough: bool) -> String {
@@ -634,8 +637,8 @@ fn exec_big(variant: u64, seed: u64, thorough: bool) -> String {
     if ks.is_empty() {
         return "oracle-fail:big:no-auto-saved-index".into();
     }
-    for k in ks {
-        for crash in if thorough { vec![false, true] } else { vec![false] } {
+    for (k, with_crash) in ks {
+        for crash in if with_crash { vec![false, true] } else { vec![false] } {
             let h = RepoHandle { be: MemBackend::from_store(before.clone()), hot: None, key: scn.h.key.clone() };
             if crash { h.be.set_crash_at(Some(k)) } else { h.be.set_fail_only(Some(k)) }
             let res = do_backup(&h, &src);
@@ -740,8 +743,8 @@ pub fn gen_one(cmd: &str, seed: u64, thorough: bool) -> String {
 }
 
 pub fn generate(thorough: bool, rng: &mut Rng, ops: &mut Vec<String>, stats: &mut Stats) {
-    // the indexer's auto-save: quick one case (variant 0 or 1), thorough every variant twice
-    let bigs: Vec<u64> = if thorough { vec![0, 1, 2, 0, 1, 2] } else { vec![rng.below(2)] };
+    // the indexer's auto-save: quick one case (variant 0 or 1), thorough every variant and one more of variant 0 / 1
+    let bigs: Vec<u64> = if thorough { vec![0, 1, 2, rng.below(2)] } else { vec![rng.below(2)] };
     for variant in bigs {
         let seed = rng.below(1_000_000);
         let line = guarded(move || gen_big(variant, seed, thorough));
